@@ -226,7 +226,7 @@ theorem stream_chain_rt {inflate : Bytes → Bytes} (stages : List (Stage inflat
     induction l with
     | nil => rfl
     | cons s ss ih => simp only [List.map_cons, List.zip_cons_cons, ih]
-  unfold streamDecode getFilters
+  unfold streamDecode streamDecodeRaw getFilters
   cases stages with
   | nil => cases h; rfl
   | cons s ss =>
@@ -234,7 +234,26 @@ theorem stream_chain_rt {inflate : Bytes → Bytes} (stages : List (Stage inflat
     have := chain_rt (s :: ss) x z h
     have hz' := hz (s :: ss)
     simp only [List.map_cons] at this hz'
-    rw [hz']; exact this
+    rw [hz', this]
+
+/-- `PDFStream.decode`'s error handler (added upstream: decoder-internal errors give an empty
+result instead of escaping) never changes a successful decode, so it cannot turn a correct round
+trip into a wrong one; and it only ever substitutes the empty string. -/
+theorem stream_decode_handler (inflate : Bytes → Bytes) (f : FilterVal) (p : ParmsVal) (raw d : Bytes) :
+    (streamDecodeRaw inflate f p raw = .ok d → streamDecode inflate f p raw = .ok d) ∧
+    (streamDecode inflate f p raw = .ok d → streamDecodeRaw inflate f p raw = .ok d ∨ d = []) := by
+  unfold streamDecode
+  constructor
+  · intro h; rw [h]
+  · intro h
+    cases hr : streamDecodeRaw inflate f p raw with
+    | ok d' => rw [hr] at h; left; exact h
+    | error e =>
+      rw [hr] at h
+      right
+      by_cases he : e.isDecodeError = true
+      · simp only [he, if_true] at h; cases h; rfl
+      · simp only [he] at h; cases h
 
 /-- `z` encodes `y` under predictor parameters `pr`. -/
 inductive PredEncodes : Option Parms → Bytes → Bytes → Prop
